@@ -100,7 +100,7 @@ def entries_from_dense(arr, legs):
     return [[[maps[k][i] for k, i in enumerate(idx)], _gint(arr[idx])] for idx in zip(*np.nonzero(arr))]
 
 
-def alpha(a, sym, views=True):
+def alpha(a, sym, views=True, noent=False):
     nsym = a.config.sym.NSYM
     st = a.struct
     nl = len(st.s)
@@ -124,7 +124,7 @@ def alpha(a, sym, views=True):
     from yastn import YastnError
     block_view_error = None
     try:
-        ent = entries_from_blocks(b, legs)
+        ent = entries_from_blocks(b, legs) if not noent else []
     except YastnError as ex:   # get_blocks_charge() listed a key that block access rejects: fall back to the dense view, flag it
         block_view_error = 'block access a[t] fails for a charge listed by get_blocks_charge(): %s' % ex
         ent = entries_from_dense(b.to_numpy(), legs)
@@ -132,7 +132,7 @@ def alpha(a, sym, views=True):
          'grp': grp, 'ent': ent, 'dg': bool(a.isdiag), 'raw': raw, 'views': 'same'}
     if block_view_error:
         o['views'] = block_view_error
-    elif views:
+    elif views and not noent:
         key = lambda e: repr(e[0])
         e0 = sorted(ent, key=key)
         try:
